@@ -71,11 +71,9 @@ ITEMS_PER_SHARD = {"quick": 36, "thorough": 90}
 # ------------------------------------------------------------------ models
 def model_list(tier: str) -> list[dict]:
     r1 = R.P("R1", 1, 1.2, -1)
-    half = R.three_body_spec(1, "1/2", "1/2", 0, [(0, R.P("R4", "1/2", 1.2, 1), True, True),
-                                                  (1, R.P("R5", "1/2", 1.5, -1), True, True)],
-                             parities=(-1, 1, -1, -1))
-    two = R.three_body_spec(1, 0, 0, 0, [(0, r1, False, False), (1, R.P("R3", 1, 1.4, -1), False, False)],
-                            parities=(-1, -1, -1, -1))
+    # spin-1/2 parent and one spin-1/2 final-state particle, resonances in two topologies
+    half = R.three_body_spec("1/2", "1/2", 0, 0, [(0, r1, True, True), (2, R.P("R5", "1/2", 1.5, -1), True, True)],
+                             parities=(1, 1, -1, -1))
     three = R.three_body_spec(1, 0, 0, 0, [(0, r1, True, True), (1, r1, True, True), (2, r1, True, True)],
                               parities=(-1, -1, -1, -1))
     return [
@@ -89,8 +87,8 @@ def model_list(tier: str) -> list[dict]:
         {"mid": "same-resonance-three-topologies+BWff", "reaction": {"spec": three}, "align": "none",
          "dyn": "bwff", "stable": None, "scalar": False, "weight": "light"},
         {"mid": "half-integer-two-topologies+DPD+BW+stable-ids", "reaction": {"spec": half}, "align": "dpd1",
-         "dyn": "bw", "stable": "all", "scalar": False, "weight": "heavy"},
-        {"mid": "two-topologies+axis-angle+BW", "reaction": {"spec": two}, "align": "aa", "dyn": "bw",
+         "dyn": "bw", "stable": "all", "scalar": False, "weight": "light"},
+        {"mid": "half-integer-two-topologies+axis-angle+BW", "reaction": {"spec": half}, "align": "aa", "dyn": "bw",
          "stable": None, "scalar": False, "weight": "heavy"},
     ]
 
@@ -173,9 +171,14 @@ def pick_alphabet(model, expr_names) -> dict:
         first(lambda x: x.startswith("m_") and x[2:].isdigit() and len(x) == 3, kin[::-1])
     if fs:
         roles["fsmass"] = fs[0]
-    got = first(lambda x: x.startswith(("\\zeta", "alpha_")), kin)
-    if got:
-        roles["alignment-angle"] = got[0]
+    # alignment angle: prefer one whose definition contains a (stable) mass parameter
+    cands = []
+    for k, v in model.kinematic_variables.items():
+        if k.name.startswith(("\\zeta", "alpha_")):
+            names = {s.name for s in plain_symbols(v)}
+            cands.append((not (names & set(par)), not names, len(cands), k.name))
+    if cands:
+        roles["alignment-angle"] = min(cands)[3]
     got = first(lambda x: x.startswith("m_") and x[2:].isdigit() and len(x) >= 5, par)
     if got:
         roles["scalar-initial-mass"] = got[0]
@@ -361,7 +364,7 @@ def cases(tier, seed):
     out = []
     for desc in model_list(tier):
         su = Setup(desc, tier, seed)
-        per = ITEMS_PER_SHARD[tier] if desc["weight"] == "light" else max(6, ITEMS_PER_SHARD[tier] // 6)
+        per = ITEMS_PER_SHARD[tier]
         nshards = max(1, math.ceil(len(su.items) / per))
         for shard in range(nshards):
             out.append({"mid": desc["mid"], "shard": shard, "nshards": nshards, "tier": tier, "seed": seed,
@@ -567,13 +570,14 @@ def classify(su, composed_src, ren) -> list[str]:
             continue
         roles = {su.roles_of[o] for o in current[a]}
         tags += [f"renames:{x}" for x in sorted(roles)]
-        for o in current[a]:
-            if su.roles_of[o] == "par" and o not in su.expr_names and not _in_kin_exprs(su, o):
-                tags.append("symbol-only-in-parameter-defaults")
         if b in current and b not in ren:
             tags.append("merge")
     if not ren:
         tags.append("empty-map")
+    # evaluated on the whole history: some renamed symbol occurs in parameter_defaults only
+    for o, n in S.compose(composed_src, ren).items():
+        if o != n and su.roles_of[o] == "par" and o not in su.expr_names and not _in_kin_exprs(su, o):
+            tags.append("symbol-only-in-parameter-defaults")
     return sorted(set(tags))
 
 
